@@ -40,8 +40,11 @@ def racing_mounts(v, quick, rnd):
                                   meta=dict(hk=hk, rs=rs, base=base, path=path, target=target, kind=kind, k=k, baseline=list(baseline), fl=fl)))
     space = len(cases)
     if quick and len(cases) > 500:
-        rnd.shuffle(cases)
-        cases = cases[:500]
+        # symlink over-mounts on the host-visible handle kinds redirect the walk instead of failing it: never sampled out
+        hot = [c for c in cases if c["meta"]["kind"] == "bind-symlink" and pc.sees(c["meta"]["hk"])]
+        rest = [c for c in cases if not (c["meta"]["kind"] == "bind-symlink" and pc.sees(c["meta"]["hk"]))]
+        rnd.shuffle(rest)
+        cases = hot + rest[:max(0, 700 - len(hot))]
     cases.sort(key=lambda c: json.dumps(c["feat"]))
     res = run_pv(cases, jobs=8, tag="C06r")
     fired = 0
@@ -62,6 +65,12 @@ def racing_mounts(v, quick, rnd):
                 v.violation(dict(check="procfs-racing-mount", what="not procfs", hk=m["hk"], rs=m["rs"], path=m["path"], kind=m["kind"]), "C06: %s: returned an object that is not on procfs (f_type %#x)" % (desc, x.get("fstype") or 0), c)
             elif (x.get("rawdev"), x.get("rawino")) == (atts[0].get("src_dev"), atts[0].get("src_ino")) and atts[0].get("src_ino"):
                 v.violation(dict(check="procfs-racing-mount", what="over-mounted object", hk=m["hk"], rs=m["rs"], path=m["path"], kind=m["kind"]), "C06: %s: returned the object of the racing over-mount" % desc, c)
+            else:
+                node = {("self", "status"): "status", ("self", "attr/current"): "attrcur", ("root", "stat"): "stat", ("thread-self", "status"): "tidstatus"}.get((m["base"], m["path"]))
+                w = pc.wrong_object(x, node, r.get("wpid"))
+                if w:
+                    v.violation(dict(check="procfs-racing-mount", what="another procfs object", hk=m["hk"], rs=m["rs"], path=m["path"], kind=m["kind"]),
+                                "C06: %s: %s (a genuine procfs object, but not the one the path names)" % (desc, w), c)
         if not pc.sees(m["hk"]) and tuple(m["baseline"]) != got and not (got[0] == "ok" and m["baseline"][0] == "ok"):
             v.violation(dict(check="procfs-racing-mount-private", hk=m["hk"], rs=m["rs"], path=m["path"], kind=m["kind"], got=list(got)),
                         "C06: %s: outcome %s differs from the unraced outcome %s although the handle is private" % (desc, got, tuple(m["baseline"])), c)
@@ -121,6 +130,10 @@ def main(tier_):
                         problems.append("returned an object of another procfs instance than the handle's")
                 if (x.get("rawdev"), x.get("rawino")) in srcs:
                     problems.append("returned the over-mounted object itself")
+                if exp.get("ok") and not follows_magic:
+                    w = pc.wrong_object(x, exp.get("node"), r.get("wpid"))
+                    if w:
+                        problems.append("returned another procfs object than the one the path names: " + w)
             if not exp.get("ok") and exp.get("err") == "EXDEV":
                 problems.append("succeeded although an over-mount visible to the handle lies on the path (expected EXDEV)")
             for p in problems:
